@@ -303,7 +303,7 @@ pub fn run(args: &Args, rep: &mut Report) {
     let good = sfn_checksum(&sfn);
     let mut n: u64 = 0;
     // ---- (a) all order / checksum / fill patterns for runs of up to 3 long-name slots
-    let orders: [u8; 13] = [0x01, 0x02, 0x03, 0x14, 0x1F, 0x41, 0x42, 0x43, 0x44, 0x54, 0x55, 0x7F, 0xC2];
+    let orders: [u8; 17] = [0x01, 0x02, 0x03, 0x14, 0x1F, 0x41, 0x42, 0x43, 0x44, 0x54, 0x55, 0x7F, 0xC2, 0x20, 0x40, 0x80, 0xA0];
     for nslots in 1..=3usize {
         let combos = orders.len().pow(nslots as u32);
         for oi in 0..combos {
@@ -371,6 +371,26 @@ pub fn run(args: &Args, rep: &mut Report) {
                 slots[si][bi] = v;
                 let what = format!("bytes:slot{} byte{}={:#04x}", si, bi, v);
                 judge(rep, &b, &slots, v % 5 == 0, &what);
+            }
+        }
+    }
+    // ---- (b2) a complete run followed by one more long-name slot with every possible order byte, then the short entry
+    for nrun in 1..=3usize {
+        let name: Vec<u16> = (0..nrun * 13 - 4).map(|i| 0x61 + (i % 26) as u16).collect();
+        let run = good_run(&name, &sfn, 0x20);
+        for ord in 0..=255u8 {
+            for same_chk in [true, false] {
+                n += 1;
+                if n % nshards != shard {
+                    continue;
+                }
+                let mut slots: Vec<Slot> = run[..run.len() - 1].to_vec();
+                slots.push(lfn_slot(ord, if same_chk { good } else { good ^ 0x5A }, &fill_units(0, 0x51)));
+                slots.push(run[run.len() - 1]);
+                if ord == 0 || ord == 0xE5 {
+                    continue;
+                }
+                judge(rep, &b, &slots, ord % 3 == 0, &format!("stray:{}-slot run + extra slot order {:#04x} chk-same={}", nrun, ord, same_chk));
             }
         }
     }
